@@ -95,6 +95,22 @@ def delegate_kwargs(prog: Program, ev: PEvent) -> dict[str, Any]:
             out.setdefault(names[i], a)
         else:
             out.setdefault(f"#{i}", a)
+    # `delegate(func, **options)` where `options` is the wrapper's own `**options: Unpack[_Options]` (PEP 692) and
+    # `_Options` a TypedDict of the library: every key of the TypedDict is a keyword the wrapper accepts and hands on
+    # under the same name, unchanged
+    star = out.get("**")
+    wfn = getattr(getattr(ev, "cfg", None), "func", None)
+    if isinstance(star, tuple) and len(star) == 2 and star[0] == "param" and isinstance(star[1], str) and star[1].startswith("**") and wfn is not None:
+        kwarg = wfn.node.args.kwarg
+        ann = kwarg.annotation if kwarg is not None and kwarg.arg == star[1][2:] else None
+        if isinstance(ann, ast.Subscript) and ast.unparse(ann.value).split(".")[-1] == "Unpack" and isinstance(ann.slice, ast.Name):
+            k0, td = prog.lookup_name(ann.slice.id, wfn, wfn.module)
+            if k0 == "class" and any(ast.unparse(b).split(".")[-1] == "TypedDict" for b in td.node.bases):
+                keys = [st.target.id for st in td.node.body if isinstance(st, ast.AnnAssign) and isinstance(st.target, ast.Name)]
+                if keys and not any(k in out for k in keys):
+                    out = {k: v for k, v in out.items() if k != "**"}
+                    for k in keys:
+                        out[k] = ("param", k)
     # `Cls.from_config(RetryConfig(a=.., b=..), classifier=c)`: the constructor call it stands for - from_config hands
     # every config field to the constructor keyword of the same name (two renamed; that layer is checked on its own),
     # so a field the config was not given is a keyword the constructor is not given
